@@ -678,6 +678,7 @@ var c06Corpus = []c06Witness{
 	{`\777`, "ÿǿ"}, {`[\400-\777]+`, "Āǿÿ"}, {`\101\x42\x{43}`, "xABC"}, {`\07`, "\a7"}, {`\a\f\t\n\r\v`, "\a\f\t\n\r\v"}, {`\0`, "\x00"}, {`\377`, "ÿ"}, {`\378`, "\x1f8"}, // escapes: an octal escape keeps its value above \377 (fixed in 533e628)
 	{`[[:digit]x]`, "0x] dx]"}, {`[[:foo]x]`, "fx] 0x]"}, {`[a[:digit]+`, "a0:d5"}, {`[[:^alpha]]`, "a] ^] 0]"}, // a POSIX name that is not closed by ":]" is a run of ordinary members (fixed in fde9056)
 	{`(?i)[[:^upper:]]`, "a"}, {`(?i)[[:^upper:]]+`, "1-"}, {`(?i)x[[:^alpha:]]`, "xk x1"}, // known finding re2-negated-posix-ignorecase (and a text without letters, where both agree)
+	{`..z`, "\x80\x80z"}, {`(.)(.)z`, "\xe2\x82z"}, {`..zq`, "a\x80\x80zq"}, {`.z`, "\xffz"}, {`...z`, "\xf0\x9f\x98z"}, {`..z`, "\xe2\x82z \xe2\x82\xacaz"}, {`.[yz]z`, "\xc3\xc3zz"}, // invalid bytes between the start and a literal at a fixed distance: each is one character
 	{`(a)(b)?`, "a"}, {`(?i:a)b`, "Ab AB"}, {`日*`, "日日a"}, {`\d+|\D`, "12ab"}, {`é?`, "éé"},
 }
 
